@@ -3124,17 +3124,30 @@ def update_working_tree(
             if not validate_path(path, validate_path_element):
                 continue
 
-            full_path = _tree_to_fs_path(repo_path, path, tree_encoding)
             try:
-                delete_stat: os.stat_result | None = os.lstat(full_path)
-            except FileNotFoundError:
-                delete_stat = None
-            except OSError as e:
-                raise OSError(
-                    f"Cannot access {path.decode('utf-8', errors='replace')}: {e}"
-                ) from e
+                verify_leading_dirs(path, [], repo_path)
+            except InvalidPathError:
+                # A leading directory of the tracked path has meanwhile been
+                # replaced by a symlink, so the tracked file is already gone
+                # from the work tree. lstat/unlink/rmdir would follow the
+                # link and remove whatever it points at, possibly outside the
+                # work tree or inside .git (git: has_symlink_leading_path).
+                try:
+                    del index[path]
+                except KeyError:
+                    pass
+            else:
+                full_path = _tree_to_fs_path(repo_path, path, tree_encoding)
+                try:
+                    delete_stat: os.stat_result | None = os.lstat(full_path)
+                except FileNotFoundError:
+                    delete_stat = None
+                except OSError as e:
+                    raise OSError(
+                        f"Cannot access {path.decode('utf-8', errors='replace')}: {e}"
+                    ) from e
 
-            _transition_to_absent(repo, path, full_path, delete_stat, index)
+                _transition_to_absent(repo, path, full_path, delete_stat, index)
 
         if change.type in (
             CHANGE_ADD,
